@@ -5,3 +5,8 @@ import Rpki.Props.C04
 #print axioms Rpki.Props.C04.asn_count_total
 #print axioms Rpki.Props.C04.capture_iterate_parity
 #print axioms Rpki.Props.C04.readTlv_partition
+#print axioms Rpki.Props.C04.crl_octets_lookup_cannot_panic
+#print axioms Rpki.Props.C04.sigmsg_octets_revocation_check_cannot_panic
+#print axioms Rpki.Props.C04.encode_verify_octets_cannot_panic
+#print axioms Rpki.Props.C04.skip_machine_bounded
+#print axioms Rpki.Props.C04.skip_machine_fuel_never_binds
